@@ -160,6 +160,19 @@ func (sz *sizer) op(o Op, prefix string, depth int) int64 {
 		return mx
 	case o.Kind == "fn" && strings.HasPrefix(o.Typ, "closure "):
 		return sz.ops(o.Sub, prefix, depth+1)
+	case o.Kind == "fn":
+		// a plain module helper that takes the coder and a value
+		if wp := sz.progs[o.Typ]; wp != nil && wp.Side == "enc" {
+			for _, t := range sz.stack {
+				if t == o.Typ {
+					sz.unb = append(sz.unb, path+" (recursive "+o.Typ+")")
+					return 0
+				}
+			}
+			sz.stack = append(sz.stack, o.Typ)
+			defer func() { sz.stack = sz.stack[:len(sz.stack)-1] }()
+			return sz.ops(rerootPaths(wp.Ops, ""), path, depth+1)
+		}
 	case o.Kind == "dist" || o.Kind == "reset" || o.Kind == "sum":
 		return 0
 	case o.Kind == "dyn":
